@@ -19,7 +19,7 @@ enum class SK : int {
     // application
     Run, Publish, Subscribe, Unsubscribe, Receive, CancelOp, CancelClient, Disconnect, Destroy, Recreate, ReAuth,
     // broker
-    BrokerPublish, BrokerDisconnect, BrokerRestart,
+    BrokerPublish, BrokerDisconnect, BrokerRestart, BrokerBurst,
     // faults
     FByteCut, FProto, FWriteErr, FConnect, FResolve, FHandshake, FSessionPresent, FStall, FClockJump,
     FPingSilent, FHostileWindow, FShutdownDelay, FRaceTimer,
@@ -78,5 +78,7 @@ std::string step_str(const Step& s);
 
 // generation
 Plan generate(uint64_t seed, const std::string& focus);
+// plan for the C19 chunking differential: one connection, a burst of QoS 0 messages (some mutated) in one segment
+Plan generate_diff(uint64_t seed);
 
 } // namespace app
